@@ -204,4 +204,21 @@ def textWidthUnits : List G → Int
   | [] => 0
   | g :: gs => (if g.vert then - g.yadv else g.xadv) + textWidthUnits gs
 
+/-! ## (f) outline placement and scaling of `toPath` (font units; `f` = the face's `MmPerEm`)
+
+`GlyphPath(p, id, ppem, f*(x+xoff), f*(y+yoff), f, NoHinting)` draws the point `c` of the glyph outline at
+`f*(x+xoff) + f*c`. The model is a function of the face scale, the face offsets, the glyphs and their
+outlines only — in particular it has no memory of earlier calls or faces, and `ppem` does not occur. -/
+
+/-- the outline points of one glyph drawn with pen `(px,py)` (pen + glyph offset) at scale `f` -/
+def glyphPts (f px py : Int) (outline : List (Int × Int)) : List (Int × Int) :=
+  outline.map (fun c => (f * px + f * c.1, f * py + f * c.2))
+
+/-- all outline points `toPath` emits, in order -/
+def toPathPts (f : Int) : Int → Int → List (G × List (Int × Int)) → List (Int × Int)
+  | _, _, [] => []
+  | x, y, (g, o) :: gs => glyphPts f (x + g.xoff) (y + g.yoff) o ++ toPathPts f (x + g.xadv) (y + g.yadv) gs
+
+def scalePts (k : Int) (ps : List (Int × Int)) : List (Int × Int) := ps.map (fun p => (k * p.1, k * p.2))
+
 end Canvas.C18
